@@ -151,7 +151,16 @@ func (r *Recorder) ByFn() map[string][]interface{} {
 
 // BuildConfig returns a Config with the whole function catalogue (if funcs) and accessor mode.
 func BuildConfig(rec *Recorder, funcs, accessor bool) jsonpath.Config {
+	return BuildConfigOrder(rec, funcs, accessor, false)
+}
+
+// BuildConfigOrder is BuildConfig with the order of the Config calls chosen by the caller:
+// accessorFirst calls SetAccessorMode before the functions are registered.
+func BuildConfigOrder(rec *Recorder, funcs, accessor, accessorFirst bool) jsonpath.Config {
 	cfg := jsonpath.Config{}
+	if accessor && accessorFirst {
+		cfg.SetAccessorMode()
+	}
 	if funcs {
 		for _, name := range gen.FilterNames {
 			name := name
@@ -179,7 +188,7 @@ func BuildConfig(rec *Recorder, funcs, accessor bool) jsonpath.Config {
 			})
 		}
 	}
-	if accessor {
+	if accessor && !accessorFirst {
 		cfg.SetAccessorMode()
 	}
 	return cfg
